@@ -9,17 +9,6 @@ import (
 	"github.com/alecthomas/participle/v2/lexer"
 )
 
-// LexDef is the lexer of generated grammars. WS (and optionally Comment) are elided by the parser.
-var LexDef = lexer.MustSimple([]lexer.SimpleRule{
-	{Name: "Ident", Pattern: `[a-zA-Z]+`},
-	{Name: "Int", Pattern: `[0-9]+`},
-	{Name: "Punct", Pattern: `[-+;()]`},
-	{Name: "WS", Pattern: `\s+`},
-	{Name: "Comment", Pattern: `#[a-z ]*#`},
-})
-
-var lexSyms = lexer.SymbolsByRune(LexDef)
-
 // Built is a grammar compiled by participle.Build.
 type Built struct {
 	G       *Grammar
@@ -73,7 +62,7 @@ func unionOpt(u int, vals []any) participle.Option {
 // Options returns the participle options that configure the grammar (lexer, elision, lookahead,
 // case-insensitivity, unions) for the given production types.
 func (g *Grammar) Options(types []reflect.Type) []participle.Option {
-	opts := []participle.Option{participle.Lexer(LexDef), participle.UseLookahead(g.Lookahead)}
+	opts := []participle.Option{participle.Lexer(g.Prof().Def), participle.UseLookahead(g.Lookahead)}
 	if len(g.Elide) > 0 {
 		opts = append(opts, participle.Elide(g.Elide...))
 	}
@@ -145,13 +134,15 @@ func (b *Built) Lex(input string) (*Lexed, error) {
 func ToLexed(g *Grammar, raw []lexer.Token) *Lexed {
 	l := &Lexed{Raw: raw}
 	for _, t := range raw {
-		name := lexSyms[t.Type]
+		name := g.Prof().TypeName(t)
 		l.Toks = append(l.Toks, Tok{Type: name, Value: t.Value, Elided: !t.EOF() && g.IsElided(name), EOF: t.EOF()})
 	}
 	return l
 }
 
 func (b *Built) Describe() string { return b.G.String() }
+
+var lexSyms = profiles[""].syms
 
 func fmtToks(ts []lexer.Token) string {
 	var sb strings.Builder
@@ -160,7 +151,7 @@ func fmtToks(ts []lexer.Token) string {
 		if i > 0 {
 			sb.WriteString(" ")
 		}
-		fmt.Fprintf(&sb, "%s%q@%d", lexSyms[t.Type], t.Value, t.Pos.Offset)
+		fmt.Fprintf(&sb, "%d%q@%d", t.Type, t.Value, t.Pos.Offset)
 	}
 	sb.WriteString("]")
 	return sb.String()
